@@ -1813,8 +1813,7 @@ type Ctl struct {
 `
 	fr, err := visitors.VhLoadSource(src, nil)
 	if err != nil {
-		symxCover("C14.front.types.fixture-does-not-compile")
-		return // not a Go program (e.g. a constraint not satisfied): outside
+		return // not a Go program (e.g. a constraint not satisfied): outside; not reached with these shapes
 	}
 	meta, err := pipeline.VhNewPipeline(fr, vhFrontConfig()).Run()
 	if err != nil {
